@@ -26,7 +26,7 @@ ASSUMPTIONS = [
 ]
 REQUIRED_HOOKS = ["concurrent_bursts", "get_requests", "routes_seen", "states_built"]
 
-STATES = ["empty", "short_queue", "long_queue", "mixed", "missing_stored", "workflows"]
+STATES = ["empty", "short_queue", "long_queue", "mixed", "missing_stored", "workflows", "dup_queue", "long_args"]
 
 
 def WORKERS(tier):
@@ -139,6 +139,21 @@ def build_state(app, state, rng):
         app.state_backend.purge()   # queued ids remain, their stored invocations are gone
         if rng.random() < 0.5:
             info["inv"].append(echo(99).invocation_id)
+    elif state == "dup_queue":
+        # the same id queued twice: claimed through the blocking branch (its message stays queued), timed out, re-routed by pending recovery
+        for i in range(3):
+            info["inv"].append(echo(i).invocation_id)
+        dup = info["inv"][rng.randrange(3)]
+        app.orchestrator.set_invocation_status(dup, InvocationStatus.PENDING, ctx)
+        app.orchestrator.set_invocation_status(dup, InvocationStatus.PENDING_RECOVERY, ctx2)
+        app.orchestrator.reroute_invocations({dup}, ctx2)
+        info["inv"].append(echo(7).invocation_id)
+    elif state == "long_args":
+        # argument values of every size class: short, long but stored inline (below the client data store threshold), external
+        for n in (3, 520, 700, 1000, 1500, 5000):
+            info["inv"].append(echo("y" * n).invocation_id)
+        info["inv"].append(add(1, y=2).invocation_id)
+        step(2)
     elif state == "workflows":
         info["inv"].append(spawn(3).invocation_id)
         step(1)
@@ -150,7 +165,7 @@ def build_state(app, state, rng):
         for i in range(3):
             info["inv"].append(echo(i).invocation_id)
     flush_history(app)
-    for i in info["inv"][:6]:
+    for i in info["inv"][:8]:
         try:
             inv = app.state_backend.get_invocation(i)
             info["calls"].append(inv.call.call_id.key)
@@ -182,6 +197,12 @@ def fill_params(path, params, info, rng):
                 v = rng.choice(["%27%3B--", "..%2F..", "a b", "%00", "x" * 300, "{}"])
             vals[p["name"]] = v
         fillings.append((cls, vals))
+        if cls == "existing" and len(path_params) == 1:
+            # every known value of the pool, not one draw (the page of each stored call / invocation / runner)
+            nm = path_params[0]["name"]
+            for v in pools.get(nm, [])[:8]:
+                if v != vals.get(nm):
+                    fillings.append((cls, {nm: v}))
         if not path_params:
             break
     out = []
@@ -207,6 +228,14 @@ def fill_params(path, params, info, rng):
             qsets.append(("log", {"log": f"invocation:{(info['inv'] or ['x'])[0]} runner:{info['runners'][0]}"}))
         if "workflow_id" in names and info["inv"]:
             qsets.append(("workflow", {"workflow_id": info["inv"][0]}))
+        # identifiers passed as query parameters (e.g. /calls/?call_id_key=...): every known value of the pool, a missing one;
+        # some views read them from request.query_params without declaring them, so the pool whose name matches the route is tried as well
+        undeclared = [nm for nm in pools if nm not in names and not path_params and nm.split("_")[0] in path]
+        for nm in names + undeclared:
+            if nm in pools and pools[nm]:
+                for v in pools[nm][:8]:
+                    qsets.append((f"q-{nm}", {nm: v}))
+                qsets.append((f"q-{nm}-missing", {nm: "no.such:thing"}))
         # filters combined: every pair of the single-filter sets, and all of them together
         singles = [(c, q) for c, q in qsets if c in ("status", "task", "page", "workflow", "limit-small", "time")]
         for i in range(len(singles)):
